@@ -11,7 +11,7 @@
 //!                               the unit's gate (unit shutdown)
 //! Observation: `end:<what the reader did last> pos:<events consumed> tail:<last two updates>
 //! eos:<count> cover:<ok|MISSING>` and, in full mode, `|` followed by every update that left
-//! the gate. A panic of the session task (tokio catches it, the task dies) prints PANIC first.
+//! the gate. A panic of the session task (tokio catches it, the task dies) prints PANIC@<where> first.
 use crate::engines::pipe::{update_bytes, POOL};
 use crate::util::ops;
 use bytes::Bytes;
@@ -146,6 +146,27 @@ fn declares_huge(evs: &[Ev]) -> bool {
     false
 }
 
+/// where the last panic happened, canonical: `<crate dir>/src/...:line`
+static LAST_PANIC: Mutex<String> = Mutex::new(String::new());
+
+fn install_panic_recorder() {
+    static ONCE: std::sync::Once = std::sync::Once::new();
+    ONCE.call_once(|| {
+        let prev = std::panic::take_hook();
+        std::panic::set_hook(Box::new(move |info| {
+            if let Some(l) = info.location() {
+                let f = l.file();
+                let canon = match f.find("/registry/src/") {
+                    Some(i) => f[i + 14..].splitn(2, '/').nth(1).unwrap_or(f).to_string(),
+                    None => match f.rfind("/src/") { Some(i) => format!("rotonda{}", &f[i..]), None => f.to_string() },
+                };
+                *LAST_PANIC.lock().unwrap() = format!("{}:{}", canon, l.line());
+            }
+            prev(info);
+        }));
+    });
+}
+
 fn runtime() -> &'static tokio::runtime::Runtime {
     static RT: OnceLock<tokio::runtime::Runtime> = OnceLock::new();
     RT.get_or_init(|| tokio::runtime::Builder::new_multi_thread().worker_threads(2).enable_all().build().unwrap())
@@ -250,6 +271,8 @@ pub fn run_case(line: &str) -> String {
 
 fn run_once(evs: Vec<Ev>, hang: bool, full: bool) -> String {
     let stats = Arc::new(Stats::default());
+    install_panic_recorder();
+    LAST_PANIC.lock().unwrap().clear();
     let rt = runtime();
     let st = stats.clone();
     rt.block_on(async move {
@@ -272,7 +295,7 @@ fn run_once(evs: Vec<Ev>, hang: bool, full: bool) -> String {
         let mut out: Vec<String> = vec![];
         match res {
             Err(_) => out.push(if st.wedged.load(SeqCst) { "WEDGE".into() } else { "STUCK".into() }),
-            Ok(Err(e)) if e.is_panic() => out.push("PANIC".into()),
+            Ok(Err(e)) if e.is_panic() => out.push(format!("PANIC@{}", LAST_PANIC.lock().unwrap())),
             Ok(Err(_)) => out.push("CANCELLED".into()),
             Ok(Ok(())) => {}
         }
